@@ -26,7 +26,7 @@ Proof.
         match goal with |- snd (exec ?t ?j ?kk ?ss) = _ <-> _ =>
           destruct (exec_committed_ok t j kk ss Hrest) as (A & B); [try reflexivity; assumption|]; rewrite A, B; tauto end.
     + destruct (existsb (Nat.eqb i) k).
-      * destruct op; try (cbn; rewrite Hc; split; congruence). apply IH, Hrest.
+      * destruct op; try (cbn; rewrite Hc; split; congruence); apply IH, Hrest.
       * destruct op; apply IH, Hrest.
 Qed.
 
@@ -36,9 +36,11 @@ Proof.
   destruct o; try (apply IH in Hm; lia). inv Hm. lia.
 Qed.
 
-(* some faulted position at or before the commit is on an operation that is not best-effort *)
+(* some faulted position at or before the commit is on an operation that is not best-effort (a best-effort write,
+   a clean-up, the read of a body to promote: their failure is swallowed) *)
+Definition best_effort (o : option opclass) : Prop := o = Some Opt \/ o = Some Cleanup \/ o = Some ReadBody.
 Definition hard_fault_upto (tr : list opclass) (i : nat) (k : list nat) (n : nat) : Prop :=
-  exists f, In f k /\ i <= f /\ f <= n /\ nth_error tr (f - i) <> Some Opt.
+  exists f, In f k /\ i <= f /\ f <= n /\ ~ best_effort (nth_error tr (f - i)).
 
 (* a fault (one of possibly several) at or before the commit operation, on an operation that is not best-effort,
    leaves the primary state as it was and reports an error *)
@@ -49,12 +51,14 @@ Proof.
   revert i s; induction tr as [|op rest IH]; intros i s Hc Hci Hf; cbn [commit_index_from] in Hci; [discriminate|].
   cbn [exec]. rewrite Hc. destruct Hf as (f & Hin & Hif & Hfn & Hopt).
   assert (Hrest : i < f -> hard_fault_upto rest (S i) k n).
-  { intros Hlt. exists f. repeat split; auto; try lia. replace (f - i) with (S (f - S i)) in Hopt by lia. exact Hopt. }
+  { intros Hlt. exists f. split; [exact Hin|]. split; [lia|]. split; [exact Hfn|].
+    replace (f - i) with (S (f - S i)) in Hopt by lia. exact Hopt. }
   destruct (existsb (Nat.eqb i) k) eqn:Ef.
   - destruct op; try (cbn; auto; fail).
     (* this position is best-effort: the hard fault is later *)
-    destruct (Nat.eq_dec f i) as [->|Hne]; [rewrite Nat.sub_diag in Hopt; cbn in Hopt; congruence|].
-    apply IH; auto. apply Hrest. lia.
+    all: destruct (Nat.eq_dec f i) as [->|Hne];
+      [rewrite Nat.sub_diag in Hopt; cbn in Hopt; exfalso; apply Hopt; unfold best_effort; auto|];
+      apply IH; auto; apply Hrest; lia.
   - assert (Hne : f <> i).
     { intros ->. assert (existsb (Nat.eqb i) k = true) by (apply existsb_exists; exists i; split; [exact Hin | apply Nat.eqb_refl]). congruence. }
     destruct op; try (apply IH; auto; apply Hrest; lia). inv Hci. lia.
